@@ -15,7 +15,7 @@ from .. import build, core, logdir
 
 LEVEL = "fault_enumeration"
 
-CFGS = ["oneline", "fluent", "fluentrot", "nested", "nestedcat", "ini"]
+CFGS = ["oneline", "fluent", "fluentrot", "nested", "nestedcat", "ini", "nestedfirst", "badfirst"]
 NS = [0, 1, 3, 100, 2000, 50000]
 SIZES = [5, 200, 20000]
 ID_RE = re.compile(rb"id=(\d+);")
@@ -40,7 +40,7 @@ def gen_case(rnd, quick):
         if cfg == "ini" and L == 0 and N == 0:
             pass
     return {"cfg": cfg, "n": n, "size": size, "nthreads": nthreads, "fatal_thread": fatal_thread, "L": L, "N": N,
-            "opts": opts, "withapp": rnd.randint(0, 1)}
+            "opts": opts, "withapp": rnd.randint(0, 1), "stderr": rnd.choice(["null", "null", "full"])}
 
 
 def text_of(i, size):
@@ -57,9 +57,20 @@ def run_case(ctx, exe, case, idx):
     argv = [exe, "fatal", evf, case["cfg"], logd, str(case["n"]), str(case["size"]), str(case["nthreads"]),
             str(case["fatal_thread"]), str(case["L"]), str(case["N"]), str(case["opts"]), str(case["withapp"])]
     try:
-        r = subprocess.run(argv, env=env, stdout=subprocess.DEVNULL, stderr=subprocess.PIPE, timeout=600)
+        # the console the logger also writes to may be gone or unwritable; that must not keep the file sinks from being flushed
+        how = case.get("stderr", "null")
+        if how == "full" and os.path.exists("/dev/full"):
+            errf = open("/dev/full", "wb")
+        elif how == "closed":
+            errf = None
+        else:
+            errf = subprocess.DEVNULL
+        if errf is None:
+            r = subprocess.run(["sh", "-c", 'exec "$@" 2>&-', "sh"] + argv, env=env, stdout=subprocess.DEVNULL, timeout=600)
+        else:
+            r = subprocess.run(argv, env=env, stdout=subprocess.DEVNULL, stderr=errf, timeout=600)
         rc = r.returncode
-        err = r.stderr.decode("utf-8", "replace")
+        err = ""
     except subprocess.TimeoutExpired:
         rc, err = "timeout", ""
     res = {"rc": rc, "err": err[-600:], "files": {}}
@@ -81,11 +92,11 @@ def judge(ctx, case, res):
     """yields (key, what)"""
     cfg, n, size = case["cfg"], case["n"], case["size"]
     T = case["nthreads"] + 1
-    rotating = cfg != "fluent" and (case["L"] > 0 or case["opts"] & 3 or cfg in ("fluentrot", "nested", "nestedcat", "ini"))
+    rotating = cfg != "fluent" and (case["L"] > 0 or case["opts"] & 3 or cfg in ("fluentrot", "nested", "nestedcat", "ini", "nestedfirst", "badfirst"))
     retention = rotating and case["N"] >= 2
     expect = {}
     allids = list(range(n + 1))
-    if cfg == "nested":
+    if cfg in ("nested", "nestedfirst"):
         expect["app.log"] = allids
         expect["warn.log"] = [i for i in range(n) if i % 3 == 1] + [n]
     elif cfg == "nestedcat":
@@ -150,7 +161,7 @@ def run(ctx):
         cases = [json.load(open(ctx.replay))["case"]]
     else:
         rnd = random.Random(ctx.seed * 911 + 11)
-        count = ctx.pick(72, 2000)
+        count = ctx.pick(96, 2000)
         cases = []
         # every configuration x {small, buffer-crossing} first, then random
         for cfg in CFGS:
@@ -180,7 +191,8 @@ def run(ctx):
         for key, what in judge(ctx, case, res):
             ctx.violation(key, "%s :: %s" % (case, what), case)
         total_bytes = case["n"] * case["size"]
-        sig = (case["cfg"], case["n"], case["size"], case["nthreads"], case["fatal_thread"] != 0, case["L"], case["N"], case["opts"])
+        sig = (case["cfg"], case["n"], case["size"], case["nthreads"], case["fatal_thread"] != 0, case["L"], case["N"], case["opts"],
+               case.get("stderr"))
         if case["n"] > 0:
             distinct.add(sig)
         k = "%s/%s" % (case["cfg"], "above-16KiB" if total_bytes > 16384 else "below-16KiB")
@@ -191,7 +203,7 @@ def run(ctx):
         "evaluations": evals,
         "distinct_nontrivial": len(distinct),
         "rule": "one child process per case: configuration kind x number/size of predecessors x producer threads x thread raising qFatal x "
-                "rotation options; non-trivial = at least one predecessor; distinct by the full parameter tuple",
+                "rotation options x state of the process's stderr (discarded, /dev/full); non-trivial = at least one predecessor; distinct by the full parameter tuple",
         "samples": samples,
         "cases_by_configuration_and_buffer_class": sig_counts,
         "fault": "process termination by qFatal -> abort() (SIGABRT) after the message handler returns; observed exit status -6 in every child",
